@@ -59,6 +59,31 @@ fn main() {
             println!("VIOLATION property={} replay={}", spec.id, a[3]);
             std::process::exit(1);
         }
+        "shrink" => {
+            // vcheck shrink <ID> <file> <out>: delta-debug a saved case (same failure key) further
+            if a.len() < 5 {
+                usage();
+            }
+            let spec = props::spec(&a[2]).unwrap_or_else(|| usage());
+            vharness::engine::install_panic_hook();
+            let Some(cf) = runner::read_case_file(&PathBuf::from(&a[3])) else {
+                eprintln!("cannot read {}", a[3]);
+                std::process::exit(2);
+            };
+            vharness::choice::set_decoder_version(cf.decoder);
+            let out0 = (spec.run)(&cf.bytes, cf.tier);
+            let Some(f0) = out0.failures.iter().find(|f| f.prop == spec.id) else {
+                println!("shrink: the case does not fail");
+                std::process::exit(0);
+            };
+            let key = runner::failure_key(f0);
+            let bytes = runner::ddmin(&spec, cf.tier, cf.bytes.clone(), &key, 200_000);
+            let out = (spec.run)(&bytes, cf.tier);
+            let msg = out.failures.iter().find(|f| f.prop == spec.id).map(|f| f.msg.clone()).unwrap_or_default();
+            runner::write_case_file(&PathBuf::from(&a[4]), spec.id, &key, cf.tier, &bytes, &msg, &out.trace, "rel");
+            println!("shrink: {} -> {} bytes, written to {}", cf.bytes.len(), bytes.len(), a[4]);
+            std::process::exit(0);
+        }
         "run" => {
             if a.len() < 4 {
                 usage();
